@@ -710,6 +710,9 @@ impl Write for OnceWriter {
         self.accepted.extend_from_slice(&buf[..n]);
         if self.done {
             self.accepted_after_fault += n;
+            if std::env::var_os("C10_WDEBUG").is_some() {
+                eprintln!("write after the failed write: {:?}\n{}", String::from_utf8_lossy(&buf[..n]), std::backtrace::Backtrace::force_capture());
+            }
         }
         Ok(n)
     }
@@ -939,7 +942,10 @@ fn sweep_value<T: serde::Serialize>(run: &Run, l: &mut Local, value: &T, ident: 
             }
             if !f_out.starts_with(&w.accepted) {
                 run.violation_capped(
-                    &format!("C10:writer:accepted-bytes-not-a-prefix:{}", plan.label()),
+                    &format!(
+                        "C10:writer:accepted-bytes-not-a-prefix:{}",
+                        if matches!(plan, WPlan::OnceCall(_) | WPlan::OnceBytes(_)) { "fail-once" } else { "sticky" }
+                    ),
                     case(),
                     format!(
                         "accepted {:?} is not a prefix of the fault-free output ({} bytes accepted after the failed write)",
@@ -1062,7 +1068,7 @@ fn main() {
     let typed: Vec<&'static Target> = ["Val", "MapStrVal", "VecString", "json", "Ignored"].iter().filter_map(|n| targets::by_name(n)).collect();
 
     // ================= 1. every fault position of every document <= 2 KiB
-    let n_docs = tier.pick(1500usize, 12_000usize);
+    let n_docs = tier.pick(5000usize, 24_000usize);
     par_range(if on(1) { n_docs } else { 0 }, |i| {
         let mut l = Local::default();
         let doc = docs::sweep_doc(run.seed, i);
@@ -1116,7 +1122,7 @@ fn main() {
     });
 
     // ================= 2. larger documents, sampled positions (buffer boundaries included)
-    let n_large = tier.pick(12usize, 60usize);
+    let n_large = tier.pick(40usize, 160usize);
     par_range(if on(2) { n_large } else { 0 }, |i| {
         let mut l = Local::default();
         let mut rng = Rng::stream(run.seed, i as u64 ^ 0x5a3);
@@ -1221,7 +1227,7 @@ fn main() {
     run.count("writer_values", (vals.len() + n_recs) as u64);
     run.count("writer_option_vectors", N_SER_OPTS as u64);
     // (a) Val trees: option vector 0 (to_io_writer) and seeded others
-    let per_val = tier.pick(2usize, 4usize);
+    let per_val = tier.pick(3usize, 4usize);
     par_range(if on(4) { vals.len() } else { 0 }, |i| {
         let mut l = Local::default();
         let shorts: &[usize] = if i % 4 == 0 { &[0, 1, 3] } else { &[0] };
@@ -1250,7 +1256,7 @@ fn main() {
 
     let scope = format!(
         "reader: for each of the {n_docs} generated documents (<= 2 KiB; families: block documents and streams whose truncated prefixes are complete documents, generated trees, flow, special shapes) and of every scalar-root document/stream of the fixed list x typed targets {{u64, i64, f64, bool, char, u8, i128, f32, Option<u64>, String, Val}} incl. serde_saphyr::read x chunkings x {{from_reader, with_deserializer_from_reader, read iterator}}: hard error after byte k for EVERY k in 0..=len, hard error on read call k for EVERY k below the fault-free call count, EOF at EVERY byte offset inside a multi-byte character{}; writer: for every value of the set ({} values: all base trees with <= {} nodes as Val and seeded random Val trees x seeded option vectors; 5 derived records (plain, RcAnchor/ArcAnchor shared nodes, LitString/FoldString/Commented/FlowSeq/FlowMap/SpaceAfter wrappers) x ALL 768 serializer option vectors = 2^7 booleans x indent_step {{2,1,4}} x {{default, narrow}} folding): failing write call k for EVERY k in 0..=fault-free call count and failure after n accepted bytes for EVERY n in 0..=len (sticky and fail-once; short writes 0/1/3/7)",
-        if thorough { ", and the fail-once variants at every k" } else { " (fail-once variants at every 3rd k)" },
+        format!(", and the fail-once variants of both at EVERY k; a quarter of the documents additionally behind a UTF-8 byte-order mark and a quarter as UTF-16 LE/BE with BOM (every k, incl. every k inside the mark); cap: EVERY cap value 0..=len+1 for every sweep document of <= {} bytes (so the cap also falls inside every multi-byte character and inside the mark)", tier.pick(160, 400)),
         vals.len() + n_recs,
         4
     );
@@ -1262,7 +1268,7 @@ fn main() {
     .assume("buffering allowance for the cap fixed in DESIGN.md before measuring: 64 KiB; cap inputs are >= cap + 256 KiB")
     .assume("instrumented readers never return Ok(0) before the end of data and never ErrorKind::Interrupted; sticky faults keep failing, fail-once faults lose no data")
     .assume("which Err is returned after a fault is not constrained (the statement says 'an error'); kinds are recorded in the evidence")
-    .assume("cap on BOM-prefixed inputs within 3 bytes of the cap, and items the iterator yields after a fail-once read error, are unspecified")
-    .min_nontrivial(tier.pick(100_000, 1_000_000));
+    .assume("the cap counts decoded UTF-8 bytes: for BOM-prefixed and UTF-16 inputs cap values between the raw and the decoded length are unspecified; items the iterator yields after a fail-once read error are unspecified; a UTF-16 stream that ends inside a code unit or between surrogates is observed only (the transcoder substitutes U+FFFD)")
+    .min_nontrivial(tier.pick(2_000_000, 20_000_000));
     run.finish(fin);
 }
